@@ -8,22 +8,26 @@ any depth,
 * both are leaf / leaf-list nodes — every accepted cell of the 4 × 4 table, except that in the cell `none` + `replace` (a leaf
   whose default flag was changed by the first diff gets another value in the second one) the new value must not carry the
   default flag (`merge_apply_dfltvalue_fails`: not reachable from validated data); or
-* both are container / list-instance nodes with the operations `none` + `none` (`meetOps`: the instance exists in all three
-  trees), the key copies of the target node belong to schema nodes before the children of the source node (schema order: true
-  of every computed diff), and their children meet in the same way.
-Excluded (OPEN, evaluated on the implementation only): an inner node created or deleted as a whole subtree by one diff that
-meets a node of the other diff — `create` + `none` / `create` + `delete` (created, then changed inside / deleted again),
-`none` + `delete` (changed inside, then deleted), `delete` + `create` ("delete-then-recreate", finding F18's cell when the
-descendants differ): there the operations of the descendants are INHERITED and `lyd_diff_merge_r` makes them explicit first.
-The leaf cells are prepared for it (`K13.term_cell` takes a source node that is a copy inside a deleted subtree).
+* both are container / list-instance nodes with the operations (`meetOps`) `none` + `none` (the instance exists in all three
+  trees), `none` + `delete` (changed inside by the first diff, deleted as a whole by the second) or `create` + `delete` (created
+  by the first diff, deleted again by the second: nothing is left), the key copies of the target node belong to schema nodes
+  before the children of the source node (schema order: true of every computed diff), and their children meet in the same
+  way — the children of a deleted subtree carry no operation of their own: it is INHERITED, and `lyd_diff_merge_delete` makes
+  the operations of the target node's children explicit first.
+Excluded (OPEN, evaluated on the implementation only): `create` + `none` — an inner node CREATED by the first diff and changed
+below its root by the second one (the children of the TARGET node inherit `create`) — and `delete` + `create` of an inner node
+("delete-then-recreate", the cell of finding F18 when the descendants differ).
 Core Lean only (the driver evaluates the predicate for every generated triple).
 -/
 namespace LyModel.Diff
 open LyModel LyModel.Tree
 
-/-- the operations of two inner nodes that may meet: `none` + `none` (the instance is in all three trees) -/
+/-- the operations of two inner nodes that may meet: `none` + `none` (the instance is in all three trees), `none` + `delete` (changed
+inside by the first diff, deleted by the second), `create` + `delete` (created by the first diff, deleted by the second) -/
 def meetOps : Option Op → Option Op → Bool
   | some .none, some .none => true
+  | some .none, some .delete => true
+  | some .create, some .delete => true
   | _, _ => false
 
 mutual
